@@ -190,7 +190,7 @@ def peer_sees_close(ctx, how):
         if how == 'after-traffic':
             b.sendall(bytes([0x90, 1, 2]))
             port.send(Message('note_on', note=5))
-            assert port.poll() is not None
+            port.poll()
         elif how == 'with':
             with port:
                 pass
